@@ -262,3 +262,22 @@ func BytesEq(a, b []byte) bool {
 	}
 	return eq
 }
+
+// RandReader stands for crypto/rand.Reader under the symbolic executor.
+type RandReader struct{}
+
+func (RandReader) Read(p []byte) (int, error) {
+	FillRandom(p)
+	return len(p), nil
+}
+
+// FillRandom fills p from the random source (intercepted under symgo:
+// deterministic bytes, or fresh symbolic bytes after SymbolicRand(true)).
+func FillRandom(p []byte) {
+	for i := range p {
+		p[i] = uint8(next("rand"))
+	}
+}
+
+// SymbolicRand makes the random source return fresh symbolic bytes.
+func SymbolicRand(on bool) {}
